@@ -34,6 +34,7 @@ def chain_present(v, e, c, ne):
     return len(set(ends)) != len(ends)
 
 
+CHAIN_PENDING = []      # (index into MODEL_EXPRS, message, replay) of chain cases whose attribution waits for the model
 MODEL_EXPRS = []        # correspondence expressions of the merge cascade (Model/Resample.v), drained by run()
 
 
@@ -52,8 +53,11 @@ def follow_up(res, v, e, c, rng, replay, label, steps=2):
                         "cells": [[k, [w.id for w in x.vertices]] for k, x in c.items()]}
             sink = []
             c11.run_case(C.Result("C11"), spec_now, ne, True, sink, label)
-            del c11.PENDING_CHAIN[:]     # (attribution of the copy's outcome is C11's business; here only the correspondence is kept)
+            del c11.PENDING_CHAIN[:]
+            model_at = len(MODEL_EXPRS) if sink else None        # where the copy's model expression will sit among MODEL_EXPRS
             MODEL_EXPRS.extend(sink)
+        else:
+            model_at = None
         try:
             with impl.quiet():
                 v, e, c, _ = impl.ve.generate_mesh(v, e, c, ne=ne, replace_short_edges=flag)
@@ -68,7 +72,11 @@ def follow_up(res, v, e, c, rng, replay, label, steps=2):
         res.evaluations += 1
         res.count("generate_mesh steps")
         if errs:
-            if chain:
+            if chain and model_at is not None:
+                # known finding D7 only if the modelled cascade (stale id map, re-used ids) reproduces what the code did on the copy;
+                # decided in run() once the Coq evaluation is known
+                CHAIN_PENDING.append((model_at, f"{label}: inconsistent after generate_mesh on a short-edge chain: {errs[0]}", dict(replay, ne=ne, flag=flag)))
+            elif chain:
                 res.fail("oracle", f"{label}: inconsistent after generate_mesh on a short-edge chain: {errs[0]}", replay, tag="D7-short-edge-chain")
             else:
                 res.fail("oracle", f"{label}: inconsistent after generate_mesh(ne={ne}, replace_short_edges={flag}): {errs[0]}", dict(replay, ne=ne, flag=flag))
@@ -217,9 +225,16 @@ def run(res, tier, seed):
     for _ in range(6 if tier == "quick" else 60):
         heap_ops(res, rng, exprs, "edge")
         heap_ops(res, rng, exprs, "cell")
+    base = len(exprs)
     exprs.extend(MODEL_EXPRS)
     del MODEL_EXPRS[:]
     bools, outs = C.coq_eval_bools("C09", IMPORTS, [e for e, _ in exprs], chunk=30)
+    for at, msg, rp in CHAIN_PENDING:
+        if base + at < len(bools) and bools[base + at] is True:
+            res.fail("oracle", msg, rp, tag="D7-short-edge-chain")
+        else:
+            res.fail("oracle", msg + " -- and it is not what the modelled merge cascade of known finding D7 produces", rp)
+    del CHAIN_PENDING[:]
     for (e, rp), b in zip(exprs, bools):
         res.traces += 1
         if b is not True:
